@@ -737,6 +737,15 @@ func (s *ibSess) run(nOps, nReads int) {
 	s.log("new %s instance %q BlockSize %v", s.kind.typ, s.name, s.bs)
 	// an unwritten volume reads as background everywhere
 	s.observe(s.vers[0], 2)
+	if s.roi != nil {
+		// directed: ROI-restricted writes of boxes that lie wholly outside the region in z (no span of the ROI in
+		// the box's block-z range), before and after a first write inside: nothing of them may be stored
+		s.writeRaw(s.vers[0], [3]int{-1, -1, -3}, [3]int{2, 2, 1}, false, true)
+		s.writeRaw(s.vers[0], [3]int{-2, -1, 0}, [3]int{3, 2, 1}, false, true)
+		s.writeRaw(s.vers[0], [3]int{-2, -2, -3}, [3]int{3, 3, 1}, false, true)
+		s.c.Count("write raw with ROI, box outside the ROI's z range")
+		s.observe(s.vers[0], nReads)
+	}
 	for op := 0; op < nOps && !s.dead; op++ {
 		open := s.open()
 		if len(open) == 0 {
@@ -751,7 +760,14 @@ func (s *ibSess) run(nOps, nReads int) {
 			s.writeBlocks(p, s.randBC(-2, 2), 1+r.Intn(3), r.Chance(0.4))
 		case x < 7 && s.roi != nil:
 			nb := [3]int{1 + r.Intn(3), 1 + r.Intn(2), 1 + r.Intn(2)}
-			s.writeRaw(p, s.randBC(-2, 1), nb, r.Chance(0.4), true)
+			bc := s.randBC(-2, 1)
+			if r.Chance(0.35) {
+				// a box that lies wholly below the region in z (the ROI has no span in the box's block-z range):
+				// nothing of it may be written
+				bc[2], nb[2] = -3, 1
+				s.c.Count("write raw with ROI, box outside the ROI's z range")
+			}
+			s.writeRaw(p, bc, nb, r.Chance(0.4), true)
 			s.c.Count("write raw with ROI")
 		case x < 9:
 			// commit and continue in a child (reads at the parent must not change)
